@@ -76,6 +76,9 @@ def run(tier, replay):
         for i in range(12 if tier == "quick" else 80):
             cases.append({"id": 0, "pre": rng.choice(list(PRE.values())), "steps": [], "cap": rng.choice([1, 2, 100]), "filter": rng.random() < 0.6,
                           "seed": rng.randrange(1 << 40), "bulk": rng.choice([60, 120, 300])})
+        # follows lasting across two of the reader's 3 s truncation checks (plain path and symbolic link, with and without filter)
+        for k, (sym, flt) in enumerate([(False, True), (True, False)] if tier == "quick" else [(False, True), (True, False), (True, True), (False, False)]):
+            cases.append({"id": 0, "pre": ["a", "n"] if k % 2 else [], "steps": [], "cap": 100, "filter": flt, "seed": 40 + k, "bulk": 0, "long": True, "symlink": sym})
         cases.append({"id": 0, "pre": [], "steps": [], "cap": 2, "filter": True, "seed": 5, "bulk": 30, "forget": True})
         cases.append({"id": 0, "pre": [], "steps": [], "cap": 1, "filter": True, "seed": 6, "bulk": 1, "stale": True})
         cases.append({"id": 0, "pre": ["a", "n", "b"], "steps": [], "cap": 2, "filter": True, "seed": 8, "bulk": 1, "stale": True})
